@@ -177,7 +177,7 @@ impl Property for C04 {
     fn runs(&self, tier: Tier) -> u64 {
         match tier {
             Tier::Quick => 20000,
-            Tier::Thorough => 4000000,
+            Tier::Thorough => 1000000,
         }
     }
 
